@@ -352,6 +352,8 @@ fn c05_constants_and_int_pulse() {
     kani::assert(s.clocks_line == if m == ZXMachine::Sinclair48K { 224 } else { 228 }, "c05.const.line_length");
     kani::assert(s.interrupt_length == 32, "c05.const.int_length");
     let mut c = mk_controller(m, FbCtx { wx: 0, wy: 0 }, false, false);
+    // any paging history (128K: any latch value, paging locked or not): frame timing never depends on it
+    c.write_7ffd(kani::any());
     let t: usize = kani::any();
     kani::assume(t < spec_frame_len(m));
     c.frame_clocks = t;
@@ -366,7 +368,7 @@ fn c05_constants_and_int_pulse() {
 // @tier quick
 // @timeout 600
 // @fn ZXController::wait_internal; ZXController::new_frame; ZXController::frames_count; ZXController::reset_frame_counter
-// @sym machine, frame T-state, step length 0..=frame-1 (the CPU issues at most 7 at once), frames already counted
+// @sym machine, frame T-state, step length 0..=frame-1 (the CPU issues at most 7 at once), frames already counted, paging latch (any value written to 7FFD before: locked or not)
 // @assert conservation: clock' + frame*(frames' - frames) == clock + step; at most one frame end per step; clock' < frame (invariant); the overrun is carried, never dropped
 // @bound one clock step from any in-frame time (inductive for runs of any length)
 // @stub ZXScreen::process_clocks -> no-op
@@ -381,6 +383,9 @@ fn c05_clock_step_conserves_time() {
     let step: usize = kani::any();
     let frames0: usize = kani::any();
     kani::assume(t < f && step < f && frames0 < 1000);
+    // any paging history (128K: any latch value, paging locked or not): the frame length never depends on it
+    let latch: u8 = kani::any();
+    c.write_7ffd(latch);
     c.frame_clocks = t;
     c.passed_frames = frames0;
     c.wait_internal(step);
@@ -392,6 +397,7 @@ fn c05_clock_step_conserves_time() {
     kani::assert(c.frames_count() == 0 && c.frame_clocks + f * df == t + step, "c05.step.counter_reset_keeps_clock");
     kani::cover!(df == 1 && c.frame_clocks == 5, "overrun of 5 T carried into the next frame");
     kani::cover!(df == 0 && step == 7, "ordinary step");
+    kani::cover!(df == 1 && latch & 0x20 != 0 && m == ZXMachine::Sinclair128K, "frame end on a 128K with paging locked");
 }
 
 // =============================================================================================
